@@ -49,6 +49,71 @@ func smallMaterial(r *rand.Rand) ref.Pos {
 	}
 }
 
+// sparseWithEP: K+B(+N) each, one pawn each on adjacent files, Black's on its home rank and White's on the fifth
+// (colours flipped half of the time), side with the home-rank pawn to move.
+func sparseWithEP(r *rand.Rand) (ref.Pos, bool) {
+	for try := 0; try < 200; try++ {
+		var p ref.Pos
+		p.EP = -1
+		f := r.Intn(8)
+		g := f + 1
+		if r.Intn(2) == 0 {
+			g = f - 1
+		}
+		if g < 0 || g > 7 {
+			continue
+		}
+		p.B[ref.Sq(f, 4)] = ref.Pawn
+		p.B[ref.Sq(g, 6)] = -ref.Pawn
+		// kings within reach of the capture square (g,5)
+		near := func() int { return ref.Sq(clamp(g-2+r.Intn(5)), 3+r.Intn(5)) }
+		wk, bk := near(), near()
+		if p.B[wk] != 0 || p.B[bk] != 0 || wk == bk || wk == ref.Sq(g, 5) || bk == ref.Sq(g, 5) || wk == ref.Sq(g, 4) || bk == ref.Sq(g, 4) {
+			continue
+		}
+		if d1, d2 := ref.File(wk)-ref.File(bk), ref.Rank(wk)-ref.Rank(bk); d1*d1 <= 1 && d2*d2 <= 1 {
+			continue
+		}
+		p.B[wk], p.B[bk] = ref.King, -ref.King
+		// bishops on one colour complex, sometimes a knight instead or in addition
+		parity := r.Intn(2)
+		place := func(v int8) {
+			for k := 0; k < 50; k++ {
+				sq := r.Intn(64)
+				if p.B[sq] == 0 && (ref.File(sq)+ref.Rank(sq))%2 == parity && sq != ref.Sq(g, 5) && sq != ref.Sq(g, 4) {
+					p.B[sq] = v
+					return
+				}
+			}
+		}
+		place(ref.Bishop)
+		place(-ref.Bishop)
+		if r.Intn(4) == 0 {
+			place([]int8{ref.Knight, -ref.Knight}[r.Intn(2)])
+		}
+		p.White = false
+		p.Half, p.Full = r.Intn(40), 1+r.Intn(60)
+		if p.InCheck(true) || p.InCheck(false) {
+			continue
+		}
+		if r.Intn(2) == 0 {
+			p = p.Mirror()
+		}
+		return p, true
+	}
+	return ref.Pos{}, false
+}
+
+func clamp(x int) int {
+	if x < 0 {
+		return 0
+	}
+	if x > 7 {
+		return 7
+	}
+	return x
+}
+
 func gameStart(r *rand.Rand, kind int) (ref.Pos, gen.Bias, int) {
 	starts := gen.Starts()
 	switch kind % 10 {
@@ -69,6 +134,13 @@ func gameStart(r *rand.Rand, kind int) (ref.Pos, gen.Bias, int) {
 		p.Half = 60 + r.Intn(40)
 		return p, gen.NoProgress, 10 + r.Intn(80)
 	case 4: // trading down into the insufficient-material classes and their near misses
+		if r.Intn(3) == 0 {
+			// ... with an en-passant capture on the way: a pawn about to double-step beside an enemy pawn, bishops
+			// on squares of one colour, kings near the pawns (so that the capturing pawn can be taken in turn)
+			if p, ok := sparseWithEP(r); ok {
+				return p, gen.Bias{Capture: 40, Check: 1, Promo: 1, Castle: 1, EP: 400, Quiet: 1, PawnMove: 6}, 6 + r.Intn(30)
+			}
+		}
 		return smallMaterial(r), gen.Trader, 10 + r.Intn(60)
 	case 5:
 		p := gen.SynthOK(r)
@@ -97,7 +169,7 @@ func init() {
 				"pushes": 50000, "ev_threefold": 200, "ev_fivefold": 20, "ev_threefold_of_start": 5, "ev_rep_first_occ_after_irreversible": 20,
 				"ev_rep_first_occ_after_castling": 1, "ev_rep_first_occ_is_start": 5,
 				"ev_clock100_first": 20, "ev_clock100_first_from_fen_clock": 10, "ev_insufficient_first": 20, "near_miss_material": 20,
-				"adjudicated_mate": 3, "adjudicated_stalemate": 1, "forks": 50, "ev_repetition_first_after_fork": 5,
+				"adjudicated_mate": 3, "adjudicated_stalemate": 1, "forks": 50, "ev_repetition_first_after_fork": 5, "query_rounds": 20000, "ev_insufficient_after_ep": 5,
 			}
 		},
 		Run: func(c *fw.Ctx, cs fw.Case) {
